@@ -230,8 +230,9 @@ def run_to_completion(path, store, max_phases=60):
         jug.task.Task.store = None
 
 
-def jug_cli(args, cwd, timeout=120):
+def jug_cli(args, cwd, timeout=120, env_extra=None):
     env = dict(os.environ)
+    env.update(env_extra or {})
     env['PYTHONPATH'] = core.REPO + os.pathsep + os.path.join(core.VERIF, 'harness') + os.pathsep + env.get('PYTHONPATH', '')
     env['HOME'] = cwd
     return subprocess.run([sys.executable, '-c', 'from jug.jug import main; main()'] + args, cwd=cwd, env=env, stdout=subprocess.PIPE, stderr=subprocess.STDOUT, text=True, timeout=timeout)
